@@ -16,7 +16,7 @@ MODP = 1000003
 MIX_W = (3, 5, 7)
 MIX_M = (1000, 20000, 400000)
 
-SUBGRAPHS = ("SgArith", "SgAccum", "SgSrc", "SgTimer", "SgPass", "SgFb", "SgOwn", "SgSched", "SgDeep", "SgFail")
+SUBGRAPHS = ("SgArith", "SgAccum", "SgSrc", "SgTimer", "SgPass", "SgFb", "SgOwn", "SgSched", "SgSchedV", "SgDeep", "SgFail")
 
 
 def norm(v):
@@ -136,6 +136,8 @@ def expand_subgraph(n):
         # engine behaviour (nested_bindings.h schedule_sampled_input_consumers): in a *nested* child, a node whose
         # validity gate is empty and that consumes a boundary input is sampled once when the child starts
         return [dict(name=nm, kind="timer1", args=[x], id=i * 10 + 1, start_sample=n["kind"] != "inline")]
+    if g == "SgSchedV":
+        return [dict(name=nm, kind="timer1v", args=[x], id=i * 10 + 1)]
     if g == "SgDeep":
         inner = dict(name=nm, kind="nested", g="SgTimer", args=[nm + ".a"], p=p, q=q, id=i * 10 + 2)
         return [dict(name=nm + ".a", kind="c1", args=[x], valid="V", op=0, id=i * 10 + 1)] + expand_subgraph(inner)
@@ -311,7 +313,7 @@ class Model:
         for n in self.nodes:
             k = n["kind"]
             nid = n.get("id", 0)
-            if k in ("source", "ticker", "c1", "c2", "c3", "sample", "accum", "timer0", "timer1", "suml", "sumb"):
+            if k in ("source", "ticker", "c1", "c2", "c3", "sample", "accum", "timer0", "timer1", "timer1v", "suml", "sumb"):
                 if self.fault_hit(nid, "start"):
                     self.failed = (nid, "start", t)
                     return
@@ -326,7 +328,7 @@ class Model:
                 self.pending[n["name"]].add(t + n.get("delay", 0) if n.get("delay") else t)
             elif k == "accum":
                 self.state[n["name"]] = 0
-            elif k in ("timer0", "timer1"):
+            elif k in ("timer0", "timer1", "timer1v"):
                 self.state[n["name"]] = 0
                 self.timer_ops(n, 0, t, True)
                 if n.get("start_sample") and self.quirks:
@@ -507,15 +509,20 @@ class Model:
                     if cur is None or self.resolve(cur[0]) != self.resolve(tgt):
                         old_ticked = self.view(cur[0], t)[1] if cur is not None else False
                         self.ite_sel[name] = (tgt, t, old_ticked)
-            elif k in ("timer0", "timer1"):
-                if k == "timer1":
+            elif k in ("timer0", "timer1", "timer1v"):
+                ready = True
+                if k != "timer0":
                     v = self.view(n["args"][0], t)
                     trig = due or v[1]
                     views = [v]
+                    ready = v[0] or k == "timer1"
                 else:
                     trig = due
                     views = []
-                if trig:
+                if trig and not ready:
+                    # woken but not ready: no user code; the runtime still consumes what fired
+                    self.pending[name] = {x for x in self.pending[name] if x > t}
+                elif trig:
                     def body(n=n, name=name, views=views, k=k):
                         kk = self.state[name] + 1
                         self.state[name] = kk
